@@ -1,27 +1,109 @@
-(* C01 — evaluation follows the documented operator semantics.
-   Property theorems only; proofs are in Proofs/. *)
+(* C01 — evaluation follows the documented operator semantics.  Property theorems only; proofs are in Proofs/. *)
 From Coq Require Import List Arith ZArith.
 Import ListNotations.
 From Exmex.Model Require Import Base EvalBinary Lexer Flat.
-From Exmex.Proofs Require Import ChainMachine SortedRef EvalBinaryCorrect FlatEval.
+From Exmex.Spec Require Import RefSem.
+From Exmex.Proofs Require Import ChainMachine SortedRef EvalBinaryCorrect FlatEval WalkSim C01Main C01Vars.
+Open Scope nat_scope.
 
-(* "Binary operators apply in descending priority and left-to-right among equal priorities", for EVERY
-   flat expression (any data type, any table, any number of operands, parsed or not): the value is the
-   precedence reference of the keys (10 * depth-scaled priority, +5 for a bumped operator): the expression
-   is split at the rightmost operator of minimal key, both sides are evaluated the same way, and the
-   operator (followed by the unary functions attached to it) is applied to the two results.
-   `_partial`: this is the evaluation half of C01.  What is still missing for the full statement
-   (see DESIGN.md 3.2/3.3): that make_expression puts the unary functions of a parenthesis group on
-   the operator applied last in the group and that depth scaling realises "parentheses first"
-   (covered by the correspondence against the reference interpreter until proved), and the
-   instantiation of Proofs/Bump.bump_invisible for regrouping_is_invisible. *)
-Theorem C01_flat_eval_is_precedence_partial :
+(* The main theorem.  For EVERY data type (carrier C), every operator table whose binary priorities lie in 0..99,
+   every well-formed surface tree c (any shape, depth, number of operands; unary chains, redundant parentheses and
+   sign chains are constructors of the tree type, Spec/RefSem.v) and every assignment of the right length:
+   the flat parser applied to the token rendering of c succeeds, reports the variable list, and the expression
+   evaluates to a value R-equivalent to the reference semantics (parentheses first, unary operators tighter than any
+   binary one and composed right to left, binary operators in descending priority and left to right among equals),
+   for every equivalence R that the operator functions respect and modulo which the operators FLAGGED commutative are
+   associative: "operands of an operator flagged commutative may only be regrouped in ways that are invisible when that
+   operator really is associative".  Variables: the list the parsers compute for the rendering. *)
+Theorem C01_eval_is_reference :
+  forall (D : Type) (C : carrier D) (tb : optable) (R : D -> D -> Prop),
+  wf_table tb = true ->
+  (forall a, R a a) -> (forall a b, R a b -> R b a) -> (forall a b c, R a b -> R b c -> R a c) ->
+  (forall k a a' b b', R a a' -> R b b' -> R (binf C k a b) (binf C k a' b')) ->
+  (forall k a a', R a a' -> R (unf C k a) (unf C k a')) ->
+  (forall o, comm_of tb o = true -> forall a b c, R (binf C o (binf C o a b) c) (binf C o a (binf C o b c))) ->
+  forall (c : chain (D:=D)) (text : str) (vals : list D),
+  wf_chain tb c = true ->
+  length vals = length (find_parsed_vars (flatten c)) ->
+  exists fx v,
+    make_expression tb true text (flatten c) (find_parsed_vars (flatten c)) = Ok fx /\
+    fvars fx = find_parsed_vars (flatten c) /\
+    eval_flat C fx vals = Ok v /\
+    R v (ref_chain C tb (find_parsed_vars (flatten c)) vals c).
+Proof.
+  intros D C tb R Hwf Hr Hs Ht Hb Hu Ha c text vals Hwfc Hlen.
+  destruct (vars_in_chain c) as [Hv0 Hvr].
+  exact (flat_parse_is_reference C tb Hwf R Hr Hs Ht Hb Hu Ha (find_parsed_vars (flatten c)) vals Hlen c text Hwfc Hv0 Hvr).
+Qed.
+
+(* when the flagged operators really are associative the two values are EQUAL *)
+Corollary C01_exact_when_flags_are_sound :
+  forall (D : Type) (C : carrier D) (tb : optable),
+  wf_table tb = true ->
+  (forall o, comm_of tb o = true -> forall a b c, binf C o (binf C o a b) c = binf C o a (binf C o b c)) ->
+  forall (c : chain (D:=D)) (text : str) (vals : list D),
+  wf_chain tb c = true -> length vals = length (find_parsed_vars (flatten c)) ->
+  exists fx,
+    make_expression tb true text (flatten c) (find_parsed_vars (flatten c)) = Ok fx /\
+    eval_flat C fx vals = Ok (ref_chain C tb (find_parsed_vars (flatten c)) vals c).
+Proof.
+  intros D C tb Hwf Ha c text vals Hwfc Hlen.
+  destruct (C01_eval_is_reference D C tb eq Hwf (@eq_refl D) (@eq_sym D) (@eq_trans D)
+              ltac:(intros; subst; reflexivity) ltac:(intros; subst; reflexivity) Ha c text vals Hwfc Hlen) as (fx & v & H1 & _ & H3 & H4).
+  exists fx. subst v. split; assumption.
+Qed.
+
+(* on the free term algebra (the data type of the correspondence check) the result is the reference TERM up to the
+   associativity congruence of the flagged operators; with no flagged operator it is the reference term itself *)
+Corollary C01_free_terms :
+  forall (tb : optable), wf_table tb = true ->
+  forall (c : chain (D:=term)) (text : str) (vals : list term),
+  wf_chain tb c = true -> length vals = length (find_parsed_vars (flatten c)) ->
+  exists fx t,
+    make_expression tb true text (flatten c) (find_parsed_vars (flatten c)) = Ok fx /\
+    eval_flat term_carrier fx vals = Ok t /\
+    aeq tb t (ref_chain term_carrier tb (find_parsed_vars (flatten c)) vals c).
+Proof.
+  intros tb Hwf c text vals Hwfc Hlen.
+  destruct (C01_eval_is_reference term term_carrier tb (aeq tb) Hwf (aeq_refl tb) (aeq_sym tb) (aeq_trans tb)
+              (fun k a a' b b' => aeq_bin tb k a a' b b') (fun k a a' => aeq_un tb k a a')
+              (fun o Ho a b c0 => aeq_assoc tb o a b c0 Ho) c text vals Hwfc Hlen) as (fx & t & H1 & _ & H3 & H4).
+  exists fx, t. repeat split; assumption.
+Qed.
+
+(* evaluation of ANY flat expression (parsed or not) is the precedence reference of its keys *)
+Theorem C01_any_flat_expression_is_precedence :
   forall (D : Type) (C : carrier D) (fixed_bump : bool)
          (nodes : list (fnode D)) (ops : list fop) (x : D) (rest : list D),
   length rest = length ops ->
   eval_numbers C (x :: rest) ops (prioritized_indices_flat fixed_bump ops nodes)
-  = Ok (ref_val D (op_at C ops) (key fixed_bump nodes ops) (length ops) x
+  = Ok (@ref_val D (op_at C ops) (key fixed_bump nodes ops) (length ops) x
           (chain_from D (vals_of D (dflt C) (x :: rest)) 0 (length ops))).
 Proof. exact @eval_numbers_is_ref. Qed.
 
-Print Assumptions C01_flat_eval_is_precedence_partial.
+(* non-vacuity: -(a+b)*sin cos c ^ 2 + 3 + 4 over a five-operator table, evaluated through the theorem's own objects *)
+Definition ex_tb : optable :=
+  [ {| repr := [43]%N; obin := Some {| prio := 0; comm := true |}; ounary := true; oconst := false |};
+    {| repr := [45]%N; obin := Some {| prio := 1; comm := false |}; ounary := true; oconst := false |};
+    {| repr := [42]%N; obin := Some {| prio := 2; comm := true |}; ounary := false; oconst := false |};
+    {| repr := [94]%N; obin := Some {| prio := 4; comm := false |}; ounary := false; oconst := false |};
+    {| repr := [115;105;110]%N; obin := None; ounary := true; oconst := false |};
+    {| repr := [99;111;115]%N; obin := None; ounary := true; oconst := false |} ].
+Definition ex_chain : chain (D:=term) :=
+  (AGroup [1] (ALeaf [] (LVar [97%N])) [(0, ALeaf [] (LVar [98%N]))],
+   [(2, ALeaf [4; 5] (LVar [99%N])); (3, ALeaf [] (LNum (Lit [50%N]))); (0, ALeaf [] (LNum (Lit [51%N]))); (0, ALeaf [] (LNum (Lit [52%N])))]).
+Example C01_example_hypotheses : wf_table ex_tb = true /\ wf_chain ex_tb ex_chain = true /\ length (find_parsed_vars (flatten ex_chain)) = 3.
+Proof. vm_compute. repeat split; reflexivity. Qed.
+Example C01_example_value :
+  (do fx <- make_expression ex_tb true [] (flatten ex_chain) (find_parsed_vars (flatten ex_chain)); eval_flat term_carrier fx [V 0; V 1; V 2])
+  = Ok (Bin 0 (Bin 0 (Bin 2 (Un 1 (Bin 0 (V 0) (V 1))) (Bin 3 (Un 4 (Un 5 (V 2))) (Lit [50%N]))) (Lit [51%N])) (Lit [52%N])).
+Proof. vm_compute. reflexivity. Qed.
+
+(* Still outside the theorem (covered by the correspondence of this check: model = implementation evaluated in Coq,
+   implementation = reference interpreter on random trees, renderings and tables): the tokenizer on the TEXT renderings
+   of a tree (whitespace, braces, call form), that check_preconditions accepts every rendering of a well-formed
+   tree, and constant folding (C02). *)
+Print Assumptions C01_eval_is_reference.
+Print Assumptions C01_exact_when_flags_are_sound.
+Print Assumptions C01_free_terms.
+Print Assumptions C01_any_flat_expression_is_precedence.
